@@ -13,13 +13,18 @@ import (
 	"github.com/tendermint/tendermint/crypto/secp256k1"
 )
 
-// Account is an externally owned account with a deterministic ed25519 key.
+// Account is an externally owned account with a deterministic key: ed25519, or secp256k1 for
+// the accounts named in SecpAccounts (the chain accepts both, and two more public-key types).
 type Account struct {
 	Name string
 	Priv ed25519.PrivKeyEd25519
+	Secp *secp256k1.PrivKeySecp256k1
 	Pub  keys.PublicKey
 	Addr keys.Address
 }
+
+// SecpAccounts holds the model names of the accounts that sign with a secp256k1 key.
+var SecpAccounts = map[string]bool{"a3": true}
 
 func secret(domain, name string) []byte {
 	h := sha256.Sum256([]byte("verif/" + domain + "/" + name))
@@ -27,6 +32,16 @@ func secret(domain, name string) []byte {
 }
 
 func NewAccount(name string) *Account {
+	if SecpAccounts[name] {
+		sk := secp256k1.GenPrivKeySecp256k1(secret("acct", name))
+		pub := sk.PubKey().(secp256k1.PubKeySecp256k1)
+		pk := keys.PublicKey{KeyType: keys.SECP256K1, Data: pub[:]}
+		h, err := pk.GetHandler()
+		if err != nil {
+			panic(err)
+		}
+		return &Account{Name: name, Secp: &sk, Pub: pk, Addr: h.Address()}
+	}
 	priv := ed25519.GenPrivKeyFromSecret(secret("acct", name))
 	pub := priv.PubKey().(ed25519.PubKeyEd25519)
 	pk := keys.PublicKey{KeyType: keys.ED25519, Data: pub[:]}
@@ -38,6 +53,13 @@ func NewAccount(name string) *Account {
 }
 
 func (a *Account) Sign(msg []byte) []byte {
+	if a.Secp != nil {
+		s, err := a.Secp.Sign(msg)
+		if err != nil {
+			panic(err)
+		}
+		return s
+	}
 	s, err := a.Priv.Sign(msg)
 	if err != nil {
 		panic(err)
